@@ -177,8 +177,13 @@ def _load():
     from .oracles.c20 import C20, run_c20
 
     wide = profile()
+    NO_KFA = ("KF-B", "KF-C", "KF-D", "KF-E")     # explore the region of the open finding KF-A (pre-emptive shift end / slot x blocking)
+    kfa = profile(rules=NO_KFA, sched=0.6, qcap=0.9, qcap_vals=[INF, 0, 0, 1, 2], n=[2, 2, 3], exact=0.0, ps=0.0,
+                  sched_pre_opts=["resume", "restart", "resample", "reroute"], slot=0.15)
     faulty = profile(f_zero=0.8, f_infarr=0.3, f_batch0=0.8, qcap=0.7, sched=0.35, renege=0.4, batch=0.4)
-    register(Profile("C01", [C01], [(2, wide), (1, faulty)],
+    # C01's own clauses hold on the unchanged tree inside the regions of the open findings too (an engine crash there is
+    # C14's matter), so C01 explores them: a third of its runs are generated without any sanitising
+    register(Profile("C01", [C01], [(2, wide), (1, faulty), (1, dict(faulty, rules=(), jockey=0.6, sched=0.4, qcap=0.8))],
                      "runs generated swarm-style from sub(VERIF_SEED,'C01',tier,i); distinct = distinct history digest "
                      "(events+micro-events+samples+draws+records); non-trivial = >=1 transfer between service nodes and >=1 exit",
                      B(40000, 500000)))
@@ -192,17 +197,18 @@ def _load():
 
     NOREROUTE = dict(preempt_opts=[False, "resume", "restart", "resample"],
                      sched_pre_opts=[False, False, "resume", "restart", "resample"])
-    register(Profile("C03", [C03], [(2, wide), (1, faulty), (1, profile(prio=0.8, preempt=0.8, sched=0.4, renege=0.5, jockey=0.6, qcap=0.6))],
+    register(Profile("C03", [C03], [(2, wide), (1, faulty), (1, profile(prio=0.8, preempt=0.8, sched=0.4, renege=0.5, jockey=0.6, qcap=0.6)), (1, kfa)],
                      "distinct history digest; non-trivial = >=1 customer with >=2 records",
                      B(40000, 500000)))
     NOREROUTE = dict(preempt_opts=[False, "resume", "restart", "resample"],
                      sched_pre_opts=[False, False, "resume", "restart", "resample"])
     srv = profile(ordinary_only=True, inf=0.0, zero=0.0, sched=0.35, qcap=0.6, renege=0.3, n=[1, 2, 2, 3], ps=0.0, slot=0.0)
     register(Profile("C04", [C04], [(2, srv), (1, profile(ordinary_only=True, inf=0.0, sched=0.5, preempt=0.0, qcap=0.7,
-                                                          sched_pre_opts=[False], n=[1, 2, 3], splits=0))],
+                                                          sched_pre_opts=[False], n=[1, 2, 3], splits=3, plan={"time": 1.0}))],
                      "distinct history digest; non-trivial = some server served >=2 customers and some customer was blocked while holding its server",
                      B(40000, 400000)))
-    register(Profile("C05", [C05], [(2, srv), (1, profile(ordinary_only=True, sched=0.5, prio=0.8, preempt=0.7, renege=0.5, cct=0.3, n=[1, 2, 3]))],
+    register(Profile("C05", [C05], [(2, srv), (1, profile(ordinary_only=True, sched=0.5, prio=0.8, preempt=0.7, renege=0.5, cct=0.3, n=[1, 2, 3])),
+                                    (1, dict(kfa, ordinary_only=True, slot=0.0))],
                      "distinct history digest; non-trivial = >=1 customer waited and later started service",
                      B(40000, 400000)))
     order = profile(ordinary_only=True, k=[2, 2, 3], prio=0.85, preempt=0.4, disc=0.8, sched=0.25, sched_pre_opts=[False], ccm=0.3, cct=0.15,
@@ -217,7 +223,7 @@ def _load():
                      "distinct history digest; non-trivial = >=1 routing decision checked (per-router-kind and unequal-queue JSQ/LB decision counters reported)",
                      B(40000, 400000)))
     samp = profile(preempt=0.0, sched_pre_opts=[False], tdep=0.5, batch=0.5, exact=0.15, n=[1, 2, 2, 3], slot=0.1, ps=0.05)
-    register(Profile("C10", [C10], [(3, samp), (1, dict(samp, f_bad=1.0))],
+    register(Profile("C10", [C10], [(3, samp), (1, dict(samp, f_bad=1.0)), (1, dict(kfa, tdep=0.5, batch=0.5))],
                      "distinct history digest; non-trivial = >=3 arrivals on one stream and >=1 completed service audited against its sample "
                      "(F5 sub-profile: one invalid sample planted per run; counters F5:planted/served/raised reported)",
                      B(40000, 400000), post=plant_bad_sample))
@@ -236,7 +242,7 @@ def _load():
                      B(30000, 300000)))
     pat = profile(renege=0.8, jockey=0.5, baulk=0.6, prio=0.5, preempt=0.3, sched=0.25, qcap=0.4, syscap=0.2, n=[1, 2, 2, 3], ps=0.03, slot=0.05,
                   route_kinds={"matrix": 0.3, "net": 0.6, "pb": 0.1, "fpb": 0.0}, f_boundary=0.05)
-    register(Profile("C13", [C13], [(1, pat)],
+    register(Profile("C13", [C13], [(5, pat), (1, dict(kfa, renege=0.8, baulk=0.5, f_boundary=0.05))],
                      "distinct history digest; non-trivial = >=1 renege or >=1 baulking decision with 0 < p < 1",
                      B(40000, 400000)))
     trk = profile(tracker=1.0, qcap=0.6, ccm=0.4, cct=0.25, renege=0.3, preempt=0.4, n=[1, 2, 2, 3], k=[1, 2, 2, 3], exact=0.05)
@@ -268,8 +274,8 @@ def _load():
                      "digest of the run under test; non-trivial = non-empty prelude/between and >=10 records compared",
                      B(8000, 80000), runner=c15.run_c15, gen=c15.gen_c15, features=c15.features15, minimiser=c15.minimise15, wall=60))
     ex = profile(ordinary_only=True, exact=1.0, time={"lat": 0.35, "dec": 0.65}, n=[1, 1, 2], k=[1, 2], inf=0.05, zero=0.0, preempt=0.0,
-                 sched=0.35, sched_pre_opts=[False], renege=0.35, prio=0.4, qcap=0.3, tdep=0.0, batch=0.2, horizon=[8.0, 20.0], ccm=0.1, cct=0.0,
-                 plan={"time": 1.0})
+                 sched=0.35, sched_pre_opts=[False, False, "resume", "restart", "resample"], renege=0.35, prio=0.4, qcap=0.3, tdep=0.0,
+                 batch=0.2, horizon=[8.0, 20.0], ccm=0.1, cct=0.0, plan={"time": 1.0})
     exc = dict(ex, time={"cont": 1.0}, f_zero=0.0, policies=["uniform"], _cont=True)
     register(Profile("C20", [C20], [(3, ex), (1, exc)],
                      "exact=k runs (k in 10..30) on decimal-lattice tapes: every record field a Decimal, dates = exact rational sums of samples / "
@@ -283,7 +289,9 @@ def _load():
     blk = profile(restricted=True, n=[2, 2, 3, 4], k=[1, 1, 2], preempt=0.0, sched=0.15, sched_pre_opts=[False], renege=0.1,
                   jockey=0.0, batch=0.2, horizon=[12.0, 30.0, 40.0], f_infarr=0.05,
                   route_kinds={"matrix": 0.5, "net": 0.4, "pb": 0.1, "fpb": 0.0})
-    register(Profile("C07", [C07], [(1, blk)],
+    # pre-emptive priorities are not excluded by C07's quantifier; blocked customers must keep their server there too
+    blk_pre = dict(blk, prio=0.9, preempt=0.9, k=[2, 2, 3], preempt_opts=["resume", "restart", "resample", False])
+    register(Profile("C07", [C07], [(3, blk), (1, blk_pre)],
                      "distinct history digest; non-trivial = >=1 blocking and >=1 unblocking (cascade depth probes reported)",
                      B(30000, 300000)))
 
